@@ -461,3 +461,10 @@ def replays(failed):
     yield ("different lengths", "print([1] == [1, 2])\n", exp("false\n"))
     yield ("a type error names the operator by its symbol", "print([] !== 1)\n", exp(err="can't apply '!==' to 'list' and 'int'"))
     yield ("a type error names the operator by its symbol (===)", "print(1 === 1)\n", exp(err="can't apply '===' to 'int' and 'int'"))
+    yield ("an earlier element decides", "print([1, 2] == [3, 2])\nprint([1, 2] != [3, 2])\nprint([[1, 2], 5] == [[3, 2], 5])\n", exp("false\ntrue\nfalse\n"))
+    yield ("null against a non-null value inside is an error", "print([1, {\"a\": 2}] == [1, {\"a\": null}])\n", exp(err="'int' and 'null'"))
+    yield ("null on the left is an error too", "print(null == 1)\n", exp(err="'null' and 'int'"))
+    yield ("same length, same values, different keys", "print({\"k\": 1} == {\"K\": 1})\nprint({\"a\": {\"x\": 1}} == {\"a\": {\"y\": 1}})\n", exp("false\nfalse\n"))
+    yield ("an alias equals a copy", "a := [1, [2]]\nb := a\nprint(a == b)\nprint(a == [1, [2]])\no := {\"k\": a}\nprint(o == {\"k\": [1, [2]]})\n", exp("true\ntrue\ntrue\n"))
+    yield ("two functions are never compared silently", "fn f() {\n}\nprint(f == f)\n", exp(err="'func' and 'func'"))
+    yield ("type names", "print(1->type())\nprint(\"a\"->type())\nprint([]->type())\nprint({}->type())\nprint(null == null)\n", exp("int\nstring\nlist\nobject\ntrue\n"))
